@@ -19,18 +19,165 @@ package patch
 
 // C18/C01: a nil (or typed-nil) resource or value is rejected with ErrInvalidInput
 //@ func (e *Expression) Insert(res, value, index, options) (err)
+//@   requires e != nil && (forall j int :: 0 <= j && j < len(options) ==> options[j] != nil)
 //@   ensures res == nil || value == nil ==> is(err, ErrInvalidInput)
 //@   ensures res != nil && value != nil && (!pbValid(pbReflect(res)) || !pbValid(pbReflect(value))) ==> is(err, ErrInvalidInput)
-//@   assigns *
+//@   ensures err != nil ==> ghost(pbw) == old(ghost(pbw))
+//@   ensures err == nil ==> ghost(pbw) <= old(ghost(pbw)) + 1
+//@   ensures err == nil && ghost(pbw) == old(ghost(pbw)) + 1 ==> ghost(pbwKind) == 1 && pbIsList(ghost(pbwFld)) && pbDetL(pbListOf(ghost(pbwVal)))
+//@   ensures err == nil && ghost(pbw) == old(ghost(pbw)) + 1 ==> 0 <= index && index <= pbLen(pbListOf(pbGet(ghost(pbwMsg), ghost(pbwFld)))) && dlLen(ghost(pbwVer), pbListOf(ghost(pbwVal))) == pbLen(pbListOf(pbGet(ghost(pbwMsg), ghost(pbwFld)))) + 1
+//@   ensures err == nil && ghost(pbw) == old(ghost(pbw)) + 1 ==> dlAt(ghost(pbwVer), pbListOf(ghost(pbwVal)), index) == pbValOfMsg(pbReflect(value))
+//@   ensures err == nil && ghost(pbw) == old(ghost(pbw)) + 1 ==> forall k int :: 0 <= k && k < index ==> dlAt(ghost(pbwVer), pbListOf(ghost(pbwVal)), k) == pbAt(pbListOf(pbGet(ghost(pbwMsg), ghost(pbwFld))), k)
+//@   ensures err == nil && ghost(pbw) == old(ghost(pbw)) + 1 ==> forall k int :: index < k && k <= pbLen(pbListOf(pbGet(ghost(pbwMsg), ghost(pbwFld)))) ==> dlAt(ghost(pbwVer), pbListOf(ghost(pbwVal)), k) == pbAt(pbListOf(pbGet(ghost(pbwMsg), ghost(pbwFld))), k - 1)
+//@   loop 1:
+//@     invariant ghost(pbw) == old(ghost(pbw)) && ghost(pbw) == ghost(pbw0) && pbDetL(list) && !pbDetM(reflect)
+//@     invariant existing == pbListOf(pbGet(reflect, field)) && !pbDetL(existing) && 0 <= i && i <= pbLen(existing) && 0 <= index && index <= pbLen(existing)
+//@     invariant (i <= index ==> dlLen(ghost(pbv), list) == i) && (i > index ==> dlLen(ghost(pbv), list) == i + 1)
+//@     invariant forall k int :: 0 <= k && k < i && k < index ==> dlAt(ghost(pbv), list, k) == pbAt(existing, k)
+//@     invariant i > index ==> dlAt(ghost(pbv), list, index) == pbValOfMsg(pbReflect(value))
+//@     invariant forall k int :: index < k && k <= i && i > index ==> dlAt(ghost(pbv), list, k) == pbAt(existing, k - 1)
+//@   assigns *, ghost:pbw, ghost:pbv, ghost:pbwKind, ghost:pbwMsg, ghost:pbwFld, ghost:pbwVal, ghost:pbwVer
 //@ func (e *Expression) Replace(resource, value, options) (err)
+//@   requires e != nil && (forall j int :: 0 <= j && j < len(options) ==> options[j] != nil)
 //@   ensures resource == nil || value == nil ==> is(err, ErrInvalidInput)
 //@   ensures resource != nil && value != nil && (!pbValid(pbReflect(resource)) || !pbValid(pbReflect(value))) ==> is(err, ErrInvalidInput)
-//@   assigns *
+//@   ensures err != nil ==> ghost(pbw) == old(ghost(pbw))
+//@   ensures err == nil ==> ghost(pbw) == old(ghost(pbw)) + 1 && ghost(pbwKind) == 1
+//@   ensures err == nil && pbIsList(ghost(pbwFld)) ==> pbDetL(pbListOf(ghost(pbwVal))) && dlLen(ghost(pbwVer), pbListOf(ghost(pbwVal))) == pbLen(pbListOf(pbGet(ghost(pbwMsg), ghost(pbwFld))))
+//@   ensures err == nil && pbIsList(ghost(pbwFld)) ==> exists d int :: forall k int :: 0 <= k && k < pbLen(pbListOf(pbGet(ghost(pbwMsg), ghost(pbwFld)))) && k != d ==> dlAt(ghost(pbwVer), pbListOf(ghost(pbwVal)), k) == pbAt(pbListOf(pbGet(ghost(pbwMsg), ghost(pbwFld))), k)
+//@   assigns *, ghost:pbw, ghost:pbv, ghost:pbwKind, ghost:pbwMsg, ghost:pbwFld, ghost:pbwVal, ghost:pbwVer
 //@ func (e *Expression) Delete(res, options) (err)
+//@   requires e != nil && (forall j int :: 0 <= j && j < len(options) ==> options[j] != nil)
 //@   ensures res == nil ==> is(err, ErrInvalidInput)
 //@   ensures res != nil && !pbValid(pbReflect(res)) ==> is(err, ErrInvalidInput)
-//@   assigns *
+//@   ensures err != nil ==> ghost(pbw) == old(ghost(pbw))
+//@   ensures err == nil ==> ghost(pbw) <= old(ghost(pbw)) + 1
+//@   ensures err == nil && ghost(pbw) == old(ghost(pbw)) + 1 ==> ghost(pbwKind) == 2 || ghost(pbwKind) == 1
+//@   ensures err == nil && ghost(pbw) == old(ghost(pbw)) + 1 && ghost(pbwKind) == 1 ==> pbIsList(ghost(pbwFld)) && pbDetL(pbListOf(ghost(pbwVal))) && dlLen(ghost(pbwVer), pbListOf(ghost(pbwVal))) == pbLen(pbListOf(pbGet(ghost(pbwMsg), ghost(pbwFld)))) - 1
+//@   assigns *, ghost:pbw, ghost:pbv, ghost:pbwKind, ghost:pbwMsg, ghost:pbwFld, ghost:pbwVal, ghost:pbwVer
 //@ func (e *Expression) Add(res, name, value, options) (err)
+//@   requires e != nil && (forall j int :: 0 <= j && j < len(options) ==> options[j] != nil)
 //@   ensures res == nil || value == nil ==> err != nil
 //@   ensures res != nil && value != nil && (!pbValid(pbReflect(res)) || !pbValid(pbReflect(value))) ==> err != nil
+//@   ensures err != nil ==> ghost(pbw) == old(ghost(pbw))
+//@   ensures err == nil ==> ghost(pbw) <= old(ghost(pbw)) + 1
+//@   ensures err == nil && ghost(pbw) == old(ghost(pbw)) + 1 ==> ghost(pbwKind) == 4 || (ghost(pbwKind) == 1 && !pbIsList(ghost(pbwFld)))
+//@   assigns *, ghost:pbw, ghost:pbv, ghost:pbwKind, ghost:pbwMsg, ghost:pbwFld, ghost:pbwVal, ghost:pbwVer
+
+// ---- C18 main clauses, on the proto write model (/verif/contracts/prelude/80_proto.smt2) ----
+// ghost(pbw) counts writes into protobuf state that this activation did not create itself
+// (Set / Clear / Mutable of a singular field / Append, Set, Truncate on an attached list).
+// "An operation that returns an error leaves the resource and the value exactly as they
+// were" is `err != nil ==> ghost(pbw) == old(ghost(pbw))`; "exactly the targeted element"
+// is: a success performs at most one such write, of the stated shape.
+
+// pure lookup (readers only): a found list position lies inside the list held by the field
+//@ func (e *Expression) getFieldForCollection(root, collection) (field, idx, ok)
+//@   ensures ok ==> field != nil && idx >= 0 - 1
+//@   ensures !ok ==> field == nil
+//@   requires root != nil
+//@   ensures ok ==> field != nil && idx >= 0 - 1
+//@   ensures ok && idx >= 0 ==> idx < pbLen(pbListOf(pbGet(pbReflect(root), field)))
+//@   loop 2:
+//@     invariant 0 <= i
+//@   loop 3:
+//@     invariant 0 <= i
+//@   assigns nothing
+
+// tryDelete: an error means nothing was written; a success is exactly one write: Clear of the
+// field, or Set of the field to a rebuilt list that is the old list without one element, the
+// others in their order
+//@ func (e *Expression) tryDelete(collection, toDelete) (err)
+//@   ensures err != nil ==> ghost(pbw) == old(ghost(pbw))
+//@   ensures err == nil ==> ghost(pbw) <= old(ghost(pbw)) + 1
+//@   ensures err == nil && ghost(pbw) == old(ghost(pbw)) + 1 ==> ghost(pbwKind) == 2 || ghost(pbwKind) == 1
+//@   ensures err == nil && ghost(pbw) == old(ghost(pbw)) + 1 && ghost(pbwKind) == 1 ==> pbIsList(ghost(pbwFld)) && pbDetL(pbListOf(ghost(pbwVal))) && dlLen(ghost(pbwVer), pbListOf(ghost(pbwVal))) == pbLen(pbListOf(pbGet(ghost(pbwMsg), ghost(pbwFld)))) - 1
+//@   ensures err == nil && ghost(pbw) == old(ghost(pbw)) + 1 && ghost(pbwKind) == 1 ==> exists d int :: 0 <= d && d < pbLen(pbListOf(pbGet(ghost(pbwMsg), ghost(pbwFld)))) && (forall k int :: 0 <= k && k < d ==> dlAt(ghost(pbwVer), pbListOf(ghost(pbwVal)), k) == pbAt(pbListOf(pbGet(ghost(pbwMsg), ghost(pbwFld))), k)) && (forall k int :: d <= k && k < pbLen(pbListOf(pbGet(ghost(pbwMsg), ghost(pbwFld)))) - 1 ==> dlAt(ghost(pbwVer), pbListOf(ghost(pbwVal)), k) == pbAt(pbListOf(pbGet(ghost(pbwMsg), ghost(pbwFld))), k + 1))
+//@   loop 1:
+//@     invariant ghost(pbw) == old(ghost(pbw)) && ghost(pbw) == ghost(pbw0) && field == nil
+//@   loop 2:
+//@     invariant ghost(pbw) == old(ghost(pbw)) && ghost(pbw) == ghost(pbw0) && pbDetL(newlist) && !pbDetM(message)
+//@     invariant 0 <= i && i <= idx && idx < pbLen(list) && list == pbListOf(pbGet(message, field)) && !pbDetL(list)
+//@     invariant dlLen(ghost(pbv), newlist) == i
+//@     invariant forall k int :: 0 <= k && k < i ==> dlAt(ghost(pbv), newlist, k) == pbAt(list, k)
+//@   loop 3:
+//@     invariant ghost(pbw) == old(ghost(pbw)) && ghost(pbw) == ghost(pbw0) && pbDetL(newlist) && !pbDetM(message)
+//@     invariant idx + 1 <= i
+//@     invariant i <= pbLen(list)
+//@     invariant 0 <= idx
+//@     invariant list == pbListOf(pbGet(message, field)) && !pbDetL(list)
+//@     invariant dlLen(ghost(pbv), newlist) == i - 1
+//@     invariant forall k int :: 0 <= k && k < idx ==> dlAt(ghost(pbv), newlist, k) == pbAt(list, k)
+//@     invariant forall k int :: idx <= k && k < i - 1 ==> dlAt(ghost(pbv), newlist, k) == pbAt(list, k + 1)
+//@   assigns ghost:pbw, ghost:pbv, ghost:pbwKind, ghost:pbwMsg, ghost:pbwFld, ghost:pbwVal, ghost:pbwVer
+
+// the list branch of tryReplace's update: rebuilds the list with position idx substituted and
+// writes it with one Set
+//@ func (e *Expression) tryReplace$1(m)
+//@   requires m != nil && list != nil && newlist != nil && ref != nil
+//@   requires pbDetL(newlist) && !pbDetL(list) && !pbDetM(ref) && ghost(pbw) == ghost(pbw0) && list == pbListOf(pbGet(ref, field)) && dlLen(ghost(pbv), newlist) == 0
+//@   ensures ghost(pbw) == old(ghost(pbw)) + 1 && ghost(pbwKind) == 1 && ghost(pbwMsg) == ref && ghost(pbwFld) == field && pbListOf(ghost(pbwVal)) == newlist
+//@   ensures dlLen(ghost(pbwVer), newlist) == pbLen(list)
+//@   ensures forall k int :: 0 <= k && k < pbLen(list) && k != idx ==> dlAt(ghost(pbwVer), newlist, k) == pbAt(list, k)
+//@   ensures 0 <= idx && idx < pbLen(list) ==> dlAt(ghost(pbwVer), newlist, idx) == pbValOfMsg(pbReflect(m))
+//@   loop 1:
+//@     invariant ghost(pbw) == old(ghost(pbw)) && ghost(pbw) == ghost(pbw0) && pbDetL(newlist) && !pbDetL(list) && !pbDetM(ref)
+//@     invariant 0 <= i && i <= pbLen(list) && dlLen(ghost(pbv), newlist) == i
+//@     invariant forall k int :: 0 <= k && k < i && k != idx ==> dlAt(ghost(pbv), newlist, k) == pbAt(list, k)
+//@     invariant 0 <= idx && idx < i ==> dlAt(ghost(pbv), newlist, idx) == pbValOfMsg(pbReflect(m))
+//@   assigns ghost:pbw, ghost:pbv, ghost:pbwKind, ghost:pbwMsg, ghost:pbwFld, ghost:pbwVal, ghost:pbwVer
+
+// the scalar branch: one Set of the field
+//@ func (e *Expression) tryReplace$2(m)
+//@   requires m != nil && ref != nil
+//@   requires !pbDetM(ref)
+//@   ensures ghost(pbw) == old(ghost(pbw)) + 1 && ghost(pbwKind) == 1 && ghost(pbwMsg) == ref && ghost(pbwFld) == field && ghost(pbwVal) == pbValOfMsg(pbReflect(m))
+//@   assigns ghost:pbw, ghost:pbv, ghost:pbwKind, ghost:pbwMsg, ghost:pbwFld, ghost:pbwVal, ghost:pbwVer
+
+// pure lookups
+//@ func (e *Expression) getRefAndFieldForCollection(collection, toReplace) (ref, field, idx, err)
+//@   ensures err == nil ==> ref != nil && field != nil && !pbDetM(ref) && idx >= 0 - 1
+//@   ensures err == nil && idx >= 0 ==> idx < pbLen(pbListOf(pbGet(ref, field)))
+//@   assigns nothing
+//@ func (e *Expression) isSingletonOneof(msg) (res)
+//@   requires msg != nil
+//@   assigns nothing
+
+// builders of detached values: nothing attached is written
+//@ func (e *Expression) newSetOneof(msg, value) (res)
+//@   requires msg != nil && value != nil
+//@   ensures ghost(pbw) == old(ghost(pbw)) && ghost(pbv) == old(ghost(pbv))
+//@   loop 1:
+//@     invariant ghost(pbw) == old(ghost(pbw)) && ghost(pbv) == old(ghost(pbv)) && 0 <= i && pbDetM(container)
+//@   assigns ghost:pbw, ghost:pbv, ghost:pbwKind, ghost:pbwMsg, ghost:pbwFld, ghost:pbwVal, ghost:pbwVer
+//@ func enumFromStringable(msg, val) (res, err)
+//@   requires msg != nil && val != nil
+//@   ensures ghost(pbw) == old(ghost(pbw)) && ghost(pbv) == old(ghost(pbv))
+//@   assigns ghost:pbw, ghost:pbv, ghost:pbwKind, ghost:pbwMsg, ghost:pbwFld, ghost:pbwVal, ghost:pbwVer
+//@ func intValueFromInt(msg, val) (res, err)
+//@   requires msg != nil && val != nil
+//@   ensures ghost(pbw) == old(ghost(pbw)) && ghost(pbv) == old(ghost(pbv))
+//@   assigns ghost:pbw, ghost:pbv, ghost:pbwKind, ghost:pbwMsg, ghost:pbwFld, ghost:pbwVal, ghost:pbwVer
+//@ func (e *Expression) normalizeAdd(valueMessage, value) (res, err)
+//@   requires valueMessage != nil && value != nil
+//@   ensures err == nil ==> res != nil
+//@   ensures ghost(pbw) == old(ghost(pbw)) && ghost(pbv) == old(ghost(pbv))
+//@   assigns ghost:pbw, ghost:pbv, ghost:pbwKind, ghost:pbwMsg, ghost:pbwFld, ghost:pbwVal, ghost:pbwVer
+
+// tryReplace: an error means nothing was written; a success is exactly one Set of the found
+// field: of a rebuilt list of the same length that differs from the old one at most at the
+// found position, or of the scalar field itself
+//@ func (e *Expression) tryReplace(collection, toReplace, value) (err)
+//@   requires e != nil && value != nil
+//@   ensures err != nil ==> ghost(pbw) == old(ghost(pbw))
+//@   ensures err == nil ==> ghost(pbw) == old(ghost(pbw)) + 1 && ghost(pbwKind) == 1 && !pbDetM(ghost(pbwMsg))
+//@   ensures err == nil && pbIsList(ghost(pbwFld)) ==> pbDetL(pbListOf(ghost(pbwVal))) && dlLen(ghost(pbwVer), pbListOf(ghost(pbwVal))) == pbLen(pbListOf(pbGet(ghost(pbwMsg), ghost(pbwFld))))
+//@   ensures err == nil && pbIsList(ghost(pbwFld)) ==> exists d int :: forall k int :: 0 <= k && k < pbLen(pbListOf(pbGet(ghost(pbwMsg), ghost(pbwFld)))) && k != d ==> dlAt(ghost(pbwVer), pbListOf(ghost(pbwVal)), k) == pbAt(pbListOf(pbGet(ghost(pbwMsg), ghost(pbwFld))), k)
+//@   assigns ghost:pbw, ghost:pbv, ghost:pbwKind, ghost:pbwMsg, ghost:pbwFld, ghost:pbwVal, ghost:pbwVer
+
+// evaluation of the compiled path: writes no protobuf state (the interface contract of
+// Expression.Evaluate and the frame of ApplyOptions name none); a result comes with its context
+//@ func (e *Expression) evaluate(res, options) (ctx, result, err)
+//@   requires e != nil && (forall j int :: 0 <= j && j < len(options) ==> options[j] != nil)
+//@   ensures err == nil ==> ctx != nil
 //@   assigns *
